@@ -71,6 +71,19 @@ namespace c14 {
             try { (void) *s.position(off + i); wide = false; }
             catch (const std::logic_error&) { }
          }
+      // the same walk left to <iterator> / <algorithm>, which pick their strategy from what the Iterator declares about itself: they
+      // must see the n elements, in order (elements whose own access raises are left to the walks above: only the counts here)
+      bool std_walk = true;
+      try {
+         if (static_cast<std::size_t>(std::distance(s.begin(), s.end())) != n) std_walk = false;
+         if (not (std::next(s.begin(), static_cast<std::ptrdiff_t>(n)) == s.end())) std_walk = false;
+         if (n > 0 and not (std::prev(s.end(), static_cast<std::ptrdiff_t>(n)) == s.begin())) std_walk = false;
+         std::size_t steps = 0;
+         for (It it = s.begin(); it != s.end(); std::advance(it, 1)) if (++steps > n) break;
+         if (steps != n) std_walk = false;
+      }
+      catch (const std::logic_error&) { std_walk = false; }
+      os << "\n@walked_by_the_standard_library=" << (std_walk ? 1 : 0);
       os << "\n@wide_positions_refused=" << (wide ? 1 : 0);
       os << "\n@postfix_result=" << (postfix_result ? 1 : 0);
       os << "\n@postfix=" << (fwd == fwd_post and bwd == bwd_post ? 1 : 0) << "\n@arrow=" << (arrow ? 1 : 0) << "\n@position=" << (pos ? 1 : 0);
